@@ -53,12 +53,85 @@ def check(run, prog, tier):
     run.rule("C16-F", "the open-system interface builds a hierarchy of the requested depth on every call", minimum=3)
     rule_F(run, prog)
     rule_G(run, prog)
+    run.rule("C16-I", "the propagator works in the rotating frame of its Hamiltonian and says so: the result is marked, the "
+                      "initial state enters the frame at the first point of the time axis", minimum=3)
+    rule_I(run, prog)
     run.rule("C16-H", "the hierarchy and its propagator read energies under internal units (reorganisation "
                       "energies, Hamiltonian)", minimum=3)
     from . import intunits
     intunits.check_classes(run, prog, "C16-H", [HE + "KTHierarchy", HE + "KTHierarchyPropagator"], 3,
                            "gamma, kBT and the time step are internal: the hierarchy no longer converges to the "
                            "analytic solution")
+
+
+def rule_I(run, prog):
+    """'For all Hamiltonians with a rotating-wave reference': the right-hand side subtracts the frame frequencies
+    (HOmega), so what propagate() returns is the state in the rotating frame.  The closed-system limit and the
+    analytic solution exp(-i w t - g(t)) are laboratory-frame statements; they can be reached from the result only if
+    the result is marked (convert_from_RWA acts on marked evolutions only) and if the frame is the one the
+    conversion assumes - exp(-i Omega t) with absolute time, so the initial state has to be rotated by
+    exp(+i Omega t0) at the first point of the axis."""
+    from .. import pat
+    rid = "C16-I"
+    cls = prog.cls(HE + "KTHierarchyPropagator")
+    f = cls.methods["propagate"]
+    init = cls.methods["__init__"]
+    # the constructor refuses a Hamiltonian without a rotating-wave reference, so every result is a rotating-frame result
+    refuses = any(isinstance(n, ast.If) and "has_rwa" in norm(n.test) and any(isinstance(x, ast.Raise) for b in (n.orelse or n.body)
+                  for x in ast.walk(b)) for n in ast.walk(init.node))
+    ev = [n for n in walk_no_nested(f.node) if isinstance(n, ast.Assign) and isinstance(n.value, ast.Call)
+          and call_name(n.value) in ("DensityMatrixEvolution", "ReducedDensityMatrixEvolution") and isinstance(n.targets[0], ast.Name)]
+    rets = [n for n in walk_no_nested(f.node) if isinstance(n, ast.Return) and isinstance(n.value, ast.Name)]
+    ok = refuses and len(ev) == 1 and rets and all(r.value.id == ev[0].targets[0].id for r in rets)
+    marked = False
+    if ok:
+        var = ev[0].targets[0].id
+        kw = [k for k in ev[0].value.keywords if k.arg == "is_in_rwa"]
+        marked = any(isinstance(k.value, ast.Constant) and k.value.value is True for k in kw) or any(
+            isinstance(n, ast.Assign) and norm(n.targets[0]) == var + ".is_in_rwa" and isinstance(n.value, ast.Constant)
+            and n.value.value is True and not isinstance(_enclosing_if(f.node, n), ast.If) for n in walk_no_nested(f.node))
+    run.obligation(rid, "KTHierarchyPropagator.propagate", bool(ok and marked), key="result-marked",
+                   message="propagate() works with the frame frequencies subtracted but returns an evolution that is not "
+                           "marked as being in the rotating frame: convert_from_RWA() on it does nothing and the laboratory "
+                           "frame dynamics cannot be obtained", loc=f.loc(ev[0]) if ev else f.loc())
+    # initial state: rebound to the helper's result before it is used
+    p0 = f.node.args.args[1].arg
+    first_use = min([n.lineno for n in walk_no_nested(f.node) if isinstance(n, ast.Name) and n.id == p0
+                     and isinstance(n.ctx, ast.Load)] or [0])
+    reb = [n for n in f.node.body if isinstance(n, ast.Assign) and norm(n.targets[0]) == p0 and isinstance(n.value, ast.Call)
+           and isinstance(n.value.func, ast.Attribute) and norm(n.value.func.value) == "self"
+           and [norm(a) for a in n.value.args] == [p0]]
+    helper = prog.find_method(cls, reb[0].value.func.attr) if reb else None
+    ok2 = bool(reb) and reb[0].lineno <= first_use and helper is not None
+    why = "the initial state is used as submitted"
+    if ok2:
+        htx = [norm(x) for x in ast.walk(helper.node) if isinstance(x, ast.stmt)]
+        hp = helper.node.args.args[1].arg
+        e1, _ = pat.seq(htx, ["$T0 = self.timeaxis.data[0]", "$W = numpy.diag(self.HOmega)"])
+        phase = e1 is not None and any(("numpy.exp(1j * %s * %s)" % (e1["W"], e1["T0"])) in x for x in htx)
+        mut = [x for x in ast.walk(helper.node) if isinstance(x, (ast.Assign, ast.AugAssign))
+               and any(norm(t_).startswith(hp + ".") or norm(t_).startswith(hp + "[")
+                       for t_ in (x.targets if isinstance(x, ast.Assign) else [x.target]))]
+        ok2 = phase and not mut
+        why = "the helper %s does not apply exp(+i Omega t0) with t0 the first point of the axis and Omega the frame " \
+              "frequencies kept by the propagator, or writes into the caller's state" % helper.short
+    run.obligation(rid, "KTHierarchyPropagator.propagate", bool(ok2), key="frame-origin",
+                   message="the conversion from the rotating frame uses absolute times, so the frame coincides with the "
+                           "laboratory frame at t = 0: %s" % why, loc=f.loc(reb[0]) if reb else f.loc())
+    run.obligation(rid, "KTHierarchyPropagator.__init__", bool(refuses), key="requires-frame",
+                   message="the propagator subtracts frame frequencies unconditionally; it must refuse a Hamiltonian "
+                           "without a rotating-wave reference", loc=init.loc())
+
+
+def _enclosing_if(fnode, node):
+    from ..loader import parents_map
+    pm = parents_map(fnode)
+    p = pm.get(node)
+    while p is not None and p is not fnode:
+        if isinstance(p, ast.If):
+            return p
+        p = pm.get(p)
+    return None
 
 
 def rule_G(run, prog):
